@@ -171,19 +171,18 @@ func discharge(res *FuncResult, selected map[int]bool, timeoutMs int) {
 	if len(pending) == 0 {
 		return
 	}
-	// incremental batches, in chunks run concurrently (large functions have hundreds of obligations)
-	var idxs []int
-	for i := range pending {
-		idxs = append(idxs, i)
-	}
+	// incremental batches, in chunks run concurrently (large functions have hundreds of obligations). A chunk has a wall-clock
+	// budget; obligations it does not reach (a few slow queries before them used it up) go into another round without the
+	// ones already answered.
+	var secsMu sync.Mutex
+	secs := 0.0
+	runBatches := func(idxs []int) {
 	sort.Ints(idxs)
 	chunk := 40
 	if len(idxs) > 320 {
 		chunk = (len(idxs) + 7) / 8
 	}
 	var cwg sync.WaitGroup
-	var secsMu sync.Mutex
-	secs := 0.0
 	for c := 0; c < len(idxs); c += chunk {
 		end := c + chunk
 		if end > len(idxs) {
@@ -207,6 +206,15 @@ func discharge(res *FuncResult, selected map[int]bool, timeoutMs int) {
 			ctx, cancel := context.WithTimeout(context.Background(), budget)
 			out, s1 := runSolver(ctx, solvers[0], f, timeoutMs, true)
 			cancel()
+			if !strings.Contains(out, "@@") {
+				// the solver process did not start or died before the first query (seen under heavy machine load): once more
+				time.Sleep(2 * time.Second)
+				ctx2, cancel2 := context.WithTimeout(context.Background(), budget)
+				var s2 float64
+				out, s2 = runSolver(ctx2, solvers[0], f, timeoutMs, true)
+				cancel2()
+				s1 += s2
+			}
 			os.Remove(f)
 			secsMu.Lock()
 			secs += s1
@@ -233,6 +241,24 @@ func discharge(res *FuncResult, selected map[int]bool, timeoutMs int) {
 		}(part)
 	}
 	cwg.Wait()
+	}
+	var idxs []int
+	for i := range pending {
+		idxs = append(idxs, i)
+	}
+	for round := 0; round < 4 && len(idxs) > 0; round++ {
+		runBatches(idxs)
+		var unreached []int
+		for _, i := range idxs {
+			if res.Obls[i].Status == "unknown" && res.Obls[i].Solver == "" {
+				unreached = append(unreached, i)
+			}
+		}
+		if len(unreached) == len(idxs) && round > 0 {
+			break // no progress
+		}
+		idxs = unreached
+	}
 	per := secs / float64(len(pending))
 	var retry []int
 	for i := range pending {
